@@ -21,7 +21,7 @@ PROPS = {
         ],
     ),
     "C09": dict(
-        units=["GenBins"],
+        units=["GenBins", "GenIndexLayout"],
         genextract="Bins",
         props_files=["Props/C09.v"],
         driver="c09",
